@@ -524,7 +524,7 @@ func fnReadyEnum() {
 			for _, s4 := range append([]string{"-"}, states...) {
 				for _, epicEdge := range []bool{false, true} {
 					for _, dep34 := range []bool{false, true} {
-						for _, variant := range []string{"plain", "t3claimed", "t4pruned", "t2moved-to-E2", "t2moved-out", "t0moved-to-E1"} {
+						for _, variant := range []string{"plain", "t3claimed", "t4pruned", "t2moved-to-E2", "t2moved-out", "t0moved-to-E1", "e0open", "e0done"} {
 							if (s4 == "-" && (dep34 || variant == "t4pruned")) || (variant == "t4pruned" && !dep34) {
 								continue
 							}
@@ -562,6 +562,15 @@ func fnReadyEnum() {
 							}
 							if variant == "t0moved-to-E1" {
 								evs = append(evs, mk("epic", 9, ergo.EpicAssignEvent{ID: "TTTTT0", EpicID: "EEEEE1", TS: ergo.VerifFormatTime(tsAt(9))}))
+							}
+							// a third epic at the head of the chain: E1 waits for E0 (whose only child is open, or done). An epic is held back by the epics
+							// *it* depends on; what those in turn wait for is their business (E2's tasks are ready once E1's are finished, whatever E0 does)
+							if variant == "e0open" || variant == "e0done" {
+								evs = append(evs, newItem("new_epic", "EEEEE0", "", 7), newItem("new_task", "TTTTT9", "EEEEE0", 8))
+								if variant == "e0done" {
+									evs = setState(evs, "TTTTT9", "done", 9)
+								}
+								evs = append(evs, mk("link", 13, ergo.LinkEvent{FromID: "EEEEE1", ToID: "EEEEE0", Type: "depends"}))
 							}
 							if variant == "t3claimed" {
 								evs = append(evs, mk("claim", 15, ergo.ClaimEvent{ID: "TTTTT3", AgentID: "zz", TS: ergo.VerifFormatTime(tsAt(15))}))
